@@ -130,3 +130,54 @@ def flatten_user_calls(F, E, fn, depth=0, follow=None):
 def is_logger_call(e):
     cls = e.get('cls') or ''
     return cls.startswith('ffsm2::LoggerInterfaceT<') or (e.get('m') == 'log' and 'ffsm2::detail::S_<' in cls)
+
+
+def substitution_loops(F, E, root_fn):
+    """[(function, for-statement)]: the loops reachable from root_fn (R_::processRequest / R_::initialEnter) whose body applies an
+    outstanding request (calls R_::applyRequest). The loop may live in the entry function itself or in a helper it calls."""
+    out = []
+    seen = set()
+    for g in [root_fn] + list(E.calls_star(root_fn).values()):
+        if g.id in seen or g.tkey != 'ffsm2::detail::R_':
+            continue
+        seen.add(g.id)
+        for st in ir.walk_stmts(g.body):
+            if st.get('s') in ('for', 'while', 'do'):
+                calls = [x for t in ir.walk_stmts(st.get('body')) for e in ir.stmt_exprs(t) for x in ir.walk(e) if x['k'] == 'call' and x.get('m') == 'applyRequest']
+                if calls:
+                    out.append((g, st))
+    return out
+
+
+def reached_only_from(F, E, fn, allowed, helper_tkeys=('ffsm2::detail::R_', 'ffsm2::detail::RV_', 'ffsm2::detail::RP_', 'ffsm2::detail::C_')):
+    """callers of fn outside `allowed` (set of (class, method)), looking *through* helper member functions of the root
+    classes: a helper is fine if everything that calls it is allowed (transitively). Returns the offending callers."""
+    from rules.c01 import tk_short
+    callers = E.callers()
+    bad = []
+    seen = set()
+
+    def visit(g, depth):
+        for cid in callers.get(g.id, ()):
+            c = F.fn(cid)
+            key = tk_short(c)
+            if key in allowed:
+                continue
+            if cid in seen:
+                continue
+            seen.add(cid)
+            # a non-public helper of the root classes: look at *its* callers
+            if c.tkey in helper_tkeys and depth < 4 and is_internal_helper(F, c) and callers.get(cid):
+                visit(c, depth + 1)
+            else:
+                bad.append(key)
+    visit(fn, 0)
+    return sorted(set(bad))
+
+
+def is_internal_helper(F, fn):
+    rec = F.rec_by_name.get(fn.cls) or {}
+    for m in rec.get('methods', []):
+        if m['m'] == fn.m:
+            return m.get('access') != 0
+    return False
